@@ -448,6 +448,24 @@ def run(ctx: Context) -> None:
                 src_txt = norm_text(src) if src is not None else '?'
         ctx.check('R13.4', ok_src, "the two values compared are the first two of the copy's (possibly flipped) coordinate", fi, other if other is not None else rc,
                   construct=f"d1, d2 = {src_txt}")
+        # two values are only read when there are two: a coordinate with one level is in either order already
+        # (and ocean_floor normalises first, so a single-layer dataset could not be reduced at all)
+        unpacks = [n for n in walk_no_nested(fi.node) if isinstance(n, ast.Assign) and isinstance(n.targets[0], ast.Tuple) and len(n.targets[0].elts) == 2
+                   and isinstance(flow.resolve(n.value), ast.Subscript) and isinstance(flow.resolve(n.value).slice, ast.Slice)]
+        from .common import guards as _g13
+        ok_len = True
+        gtxt = []
+        for u in unpacks:
+            g = _g13(fi, u)
+            gtxt.append(g)
+            owner = flow.resolve(flow.resolve(u.value).value)
+            base = norm_text(owner.value) if isinstance(owner, ast.Attribute) else norm_text(owner)
+            counts = (f"{base}.size", f"len({base})", f"len({base}.values)", f"{base}.values.size", f"{base}.shape[0]")
+            at_least_two = {f"{c_}{op}" for c_ in counts for op in ('>1', '>=2')}
+            fewer = {f"{c_}{op}" for c_ in counts for op in ('<2', '<=1')}
+            ok_len = ok_len and any((pol and t.replace(' ', '') in at_least_two) or (not pol and t.replace(' ', '') in fewer) for t, pol in g)
+        ctx.check('R13.4', ok_len, "the ordering is only read from a coordinate that has at least two levels", fi, unpacks[0] if unpacks else fi.node,
+                  construct=f"guards of the two-value read: {gtxt}")
         ctx.check('R13.4', ok_o, "deep-to-shallow iff (first > second) == positive-down, with the sign as updated by the flip", fi, other if other is not None else rc,
                   construct=f"current ordering: {norm_text(ov) if ov is not None else '?'}")
         # single dimension
@@ -507,6 +525,7 @@ VARIANTS = [
     V('C13', 'flip-when-unset', _D, "        if positive_down is not None and data_positive_down != positive_down:", "        if data_positive_down != bool(positive_down):", 'R13.5'),
     V('C13', 'up-down-swapped', _D, "'down' if positive_down else 'up'", "'up' if positive_down else 'down'", 'R13.5'),
     V('C13', 'depth-bounds-listed-as-coordinates', 'src/emsarray/conventions/_base.py', "            if name in bounds_names:\n                # The bounds of a depth coordinate can carry the same attributes\n                continue\n", "", 'R13.7'),
+    V('C13', 'single-level-unpacked', _D, "        if deep_to_shallow is not None and new_variable.size > 1:", "        if deep_to_shallow is not None:", 'R13.4'),
     V('C13', 'wrapper-drops-option', 'src/emsarray/conventions/_base.py', "            positive_down=positive_down, deep_to_shallow=deep_to_shallow)", "            positive_down=positive_down)", 'R13.6'),
     # benign
     V('C13', 'benign-unary-minus', _D, "            new_values = -1 * new_variable.values", "            new_values = -new_variable.values", None),
